@@ -128,6 +128,7 @@ def option_sets():
         "value_type": st.booleans(),
         "quote_entities": st.booleans(),
         "indent": st.booleans(),
+        "indent_cells": st.booleans(),
         "deflate": st.booleans(),
         "bare_empty": st.booleans(),
     })
@@ -645,6 +646,8 @@ for _name in ("col_runs", "row_runs", "ws_all", "ws_runs_whole", "paragraphs", "
     CORPUS.append(_table_case([_T], **{_name: True}))
 for _name in ("value_type", "ws_count", "deflate"):
     CORPUS.append(_table_case([_T], **{_name: False}))
+CORPUS.append(_table_case([_T], indent=True, indent_cells=True))
+CORPUS.append(_table_case([_T], indent=True, indent_cells=True, paragraphs=True))
 for _mode in ("whole", "alt", "nested"):
     CORPUS.append(_table_case([_T], span_mode=_mode, span_len=2))
 for _encoding in enc_ods.ENCODINGS:
